@@ -63,7 +63,7 @@ fn map_extend<K: std::cmp::Eq + std::hash::Hash, V>(m: &mut HashMap<K, V>, other
 //@end
 //@extract src/verifylib.rs fn:reduce_chain_links stub
 //@contract ret=r
-    ensures r is Ok ==> reduced_ok(link_files@, r->Ok_0@),   // [C13]
+//@include contracts/reduce_chain_links.rs
 //@end
 pub uninterp spec fn all_item_rules_ok(items: Vec<Box<dyn SupplyChainItem>>, red: Map<String, LinkMetadata>) -> bool;
 #[verifier::external_body]
